@@ -11,6 +11,7 @@ import Signac.Extracted
 import Signac.ImportExport
 import Signac.Proofs.IEChecks
 import Signac.Proofs.IERoundtrip
+import Signac.Proofs.IENested
 import Signac.Proofs.IEFrame
 import Signac.Proofs.IEExists
 import Signac.Proofs.IESchema
@@ -174,14 +175,158 @@ theorem valid_paths_roundtrip_full_false : ¬ valid_paths_roundtrip_full := by
       j.files.length = 1 := by decide
   exact absurd (hlen jE hmem) (by decide)
 
-/-- What remains open: the statement without `NoNestedSp` but with `NoEmptyDirs` for zip.  Believed true
-    of the model, NOT proved: the proofs above do not use the visiting order, which is what makes a
-    nested state point file harmless. -/
+/-- The statement without `NoNestedSp` but with `NoEmptyDirs` for zip: a job may hold, in a
+    sub-directory, a file called `signac_statepoint.json` (e.g. a copy of another job's directory).
+    DECIDED below: as literally stated it is false of the model for zip and directory targets, for
+    a reason that is an artefact of the model's path type and not a defect of signac
+    (`valid_paths_roundtrip_nested_false`); it holds for tar targets (`valid_paths_roundtrip_tar`),
+    for all targets when no job sits at the target root, e.g. for every project with two or more
+    jobs (`valid_paths_roundtrip_subdirs`, `valid_paths_roundtrip_multi`), and for all targets under
+    the hypothesis that no entry of the root job has the empty string as its first path component
+    (`valid_paths_roundtrip_partial`). -/
 def valid_paths_roundtrip_nested : Prop :=
   ∀ (hash : JVal → String) (P : Project) (ds : List Comps) (t : Target),
     P.length = ds.length → (t = .dir → P ≠ []) → (t = .zip → NoEmptyDirs P) → WF hash P → PrefixFree ds →
     (importFrom t hash .none [] P ds (walkOrder (exportMembers P ds))).err = none
     ∧ ProjEquiv (importFrom t hash .none [] P ds (walkOrder (exportMembers P ds))).proj P
+
+/-- the same for one target kind -/
+def valid_paths_roundtrip_nested_at (t : Target) : Prop :=
+  ∀ (hash : JVal → String) (P : Project) (ds : List Comps),
+    P.length = ds.length → (t = .dir → P ≠ []) → (t = .zip → NoEmptyDirs P) → WF hash P → PrefixFree ds →
+    (importFrom t hash .none [] P ds (walkOrder (exportMembers P ds))).err = none
+    ∧ ProjEquiv (importFrom t hash .none [] P ds (walkOrder (exportMembers P ds))).proj P
+
+private def hN : JVal → String
+  | .null => "root"
+  | _ => "inner"
+
+/-- one job, exported to the target root, that holds a directory whose NAME IS THE EMPTY STRING with a
+    (foreign) state point file in it, listed before the job's own state point file -/
+private def jN : Job := ⟨"root", [(["", fnSp], .sp (.int 1)), ([fnSp], .sp .null)]⟩
+
+private theorem jN_wf : WF hN [jN] :=
+  ⟨by decide, fun j hj => by
+      simp only [List.mem_singleton] at hj; subst hj; exact ⟨.null, rfl, rfl⟩,
+    fun j hj fc hfc => by
+      simp only [List.mem_singleton] at hj; subst hj
+      simp only [jN, List.mem_cons, List.not_mem_nil, or_false] at hfc
+      rcases hfc with rfl | rfl <;> simp⟩
+
+private theorem jN_nodirs : NoEmptyDirs [jN] := by
+  intro j hj fc hfc
+  simp only [List.mem_singleton] at hj; subst hj
+  simp only [jN, List.mem_cons, List.not_mem_nil, or_false] at hfc
+  rcases hfc with rfl | rfl <;> rfl
+
+private theorem jN_contra {r : ImportResult} (hids : r.proj.map (·.id) = ["inner", "root"])
+    (heq : ProjEquiv r.proj [jN]) : False := by
+  have hmem : "inner" ∈ r.proj.map (·.id) := by rw [hids]; exact List.mem_cons_self
+  rcases List.mem_map.mp hmem with ⟨j, hj, hid⟩
+  have := (heq.1 j).mp hj
+  simp only [List.mem_singleton] at this
+  subst this
+  exact absurd hid (by decide)
+
+/-- zip: FALSE of the model.  Witness `jN` at the target root: the directory list of the zip
+    analyser is `{"" (the directory named ""), "" (the root)}`; both have the joined name `""`, `sorted`
+    cannot order them, the model's stable sort keeps the order of the member list and visits the
+    directory named `""` first — before the root has been identified — reads the state point file
+    in it and imports it as a second job `inner`.  No file system or archive written by signac can
+    contain a directory named `""`; this is an artefact of `Comps = List String`, not a defect. -/
+theorem valid_paths_roundtrip_nested_zip_false : ¬ valid_paths_roundtrip_nested_at .zip := by
+  intro h
+  have h' := h hN [jN] [[]] rfl (by intro hh; cases hh) (fun _ => jN_nodirs) jN_wf
+    (by unfold PrefixFree; exact List.pairwise_singleton _ _)
+  exact jN_contra (by decide) h'.2
+
+/-- directory: FALSE of the model, same witness: `walkOrder` (= `sorted`) is not a top-down order
+    when a directory is named `""`. -/
+theorem valid_paths_roundtrip_nested_dir_false : ¬ valid_paths_roundtrip_nested_at .dir := by
+  intro h
+  have h' := h hN [jN] [[]] rfl (by intro _; simp) (by intro hh; cases hh) jN_wf
+    (by unfold PrefixFree; exact List.pairwise_singleton _ _)
+  exact jN_contra (by decide) h'.2
+
+theorem valid_paths_roundtrip_nested_false : ¬ valid_paths_roundtrip_nested :=
+  fun h => valid_paths_roundtrip_nested_zip_false (fun hash P ds => h hash P ds .zip)
+
+/-- tar (and compressed tar) WITHOUT `NoNestedSp` and without any condition on names: nested state
+    point files are harmless.  Every sub-directory of a job directory is a member of the archive, comes
+    after its parent in `sorted` order, and is skipped because its parent was identified or skipped. -/
+theorem valid_paths_roundtrip_tar (hash : JVal → String) (P : Project) (ds : List Comps)
+    (hlen : P.length = ds.length) (hwf : WF hash P) (hpf : PrefixFree ds) (order : List Comps) :
+    (importFrom .tar hash .none [] P ds order).err = none
+    ∧ ProjEquiv (importFrom .tar hash .none [] P ds order).proj P := by
+  have h := tar_roundtripN (goodExportN_of hwf hpf)
+  rw [zip_fst_eq hlen] at h
+  exact ⟨h.1, h.2.1, h.2.2⟩
+
+theorem valid_paths_roundtrip_nested_tar : valid_paths_roundtrip_nested_at .tar :=
+  fun hash P ds hlen _ _ hwf hpf => valid_paths_roundtrip_tar hash P ds hlen hwf hpf _
+
+/-- All target kinds WITHOUT `NoNestedSp`.  `_partial`: the extra hypothesis is exactly
+    `[] ∈ ds → TopNamed P` — if a job is exported to the target root, no entry of a job has the empty
+    string as its first path component (which no real file has).  The visiting order is the sorted
+    (parents first) one; this is what makes the nested state point files harmless: the job directory
+    is identified first and nothing below it is looked at. -/
+theorem valid_paths_roundtrip_partial (hash : JVal → String) (P : Project) (ds : List Comps) (t : Target)
+    (hlen : P.length = ds.length) (hne : t = .dir → P ≠ []) (hnd : t = .zip → NoEmptyDirs P)
+    (hwf : WF hash P) (hpf : PrefixFree ds) (htop : [] ∈ ds → TopNamed P) :
+    (importFrom t hash .none [] P ds (walkOrder (exportMembers P ds))).err = none
+    ∧ ProjEquiv (importFrom t hash .none [] P ds (walkOrder (exportMembers P ds))).proj P := by
+  have G := goodExportN_of hwf hpf
+  have htopE := topNamedE_of (P := P) (ds := ds) htop
+  cases t with
+  | tar => exact valid_paths_roundtrip_tar hash P ds hlen hwf hpf _
+  | zip =>
+    have h := zip_roundtripN G htopE
+    rw [zip_fst_eq hlen] at h
+    show (importZip hash .none [] (zipMembers P ds)).err = none
+      ∧ ProjEquiv (importZip hash .none [] (zipMembers P ds)).proj P
+    rw [zipMembers_eq ds (hnd rfl)]
+    exact ⟨h.1, h.2.1, h.2.2⟩
+  | dir =>
+    have h := dir_roundtripN G htopE
+    rw [zip_fst_eq hlen] at h
+    have hemp : P.isEmpty = false := by
+      cases P with
+      | nil => exact absurd rfl (hne rfl)
+      | cons _ _ => rfl
+    simp only [importFrom, hemp, Bool.false_eq_true, if_false]
+    exact ⟨h.1, h.2.1, h.2.2⟩
+
+/-- No extra hypothesis when no job is exported to the target root itself. -/
+theorem valid_paths_roundtrip_subdirs (hash : JVal → String) (P : Project) (ds : List Comps) (t : Target)
+    (hlen : P.length = ds.length) (hne : t = .dir → P ≠ []) (hnd : t = .zip → NoEmptyDirs P)
+    (hwf : WF hash P) (hpf : PrefixFree ds) (hroot : [] ∉ ds) :
+    (importFrom t hash .none [] P ds (walkOrder (exportMembers P ds))).err = none
+    ∧ ProjEquiv (importFrom t hash .none [] P ds (walkOrder (exportMembers P ds))).proj P :=
+  valid_paths_roundtrip_partial hash P ds t hlen hne hnd hwf hpf (fun h => absurd h hroot)
+
+/-- In particular: every project with at least two jobs (prefix-free paths cannot contain the root
+    then) — heterogeneous and nested state points, documents, nested files, nested state point
+    files, all target kinds. -/
+theorem valid_paths_roundtrip_multi (hash : JVal → String) (P : Project) (ds : List Comps) (t : Target)
+    (hlen : P.length = ds.length) (h2 : 2 ≤ P.length) (hnd : t = .zip → NoEmptyDirs P)
+    (hwf : WF hash P) (hpf : PrefixFree ds) :
+    (importFrom t hash .none [] P ds (walkOrder (exportMembers P ds))).err = none
+    ∧ ProjEquiv (importFrom t hash .none [] P ds (walkOrder (exportMembers P ds))).proj P := by
+  refine valid_paths_roundtrip_subdirs hash P ds t hlen ?_ hnd hwf hpf ?_
+  · intro _ hP
+    rw [hP] at h2
+    simp at h2
+  · intro hmem
+    have h2' : 2 ≤ ds.length := hlen ▸ h2
+    match ds, h2', hpf, hmem with
+    | [], h2', _, _ => simp at h2'
+    | [_], h2', _, _ => simp at h2'
+    | a :: b :: r, _, hpf, hmem =>
+      unfold PrefixFree at hpf
+      have h1 := List.pairwise_cons.mp hpf
+      rcases List.mem_cons.mp hmem with h | h
+      · exact (h1.1 b List.mem_cons_self).1 (h ▸ List.nil_prefix)
+      · exact (h1.1 [] h).2 List.nil_prefix
 
 /-! ### import never overwrites, never leaves the job directories -/
 
@@ -356,6 +501,49 @@ private theorem ex_nodirs : NoEmptyDirs [j1, j2] := by
     rcases hfc with rfl | rfl <;> rfl
 
 example : NoEmptyDirs [j1, j2] := ex_nodirs
+
+/-- job `one` holding a copy of the directory of job `other` (state point file and document) -/
+private def j3 : Job := ⟨"one", [([fnSp], .sp (.obj [("a", .int 1)])),
+  (["copy_of_other", fnSp], .sp (.obj [("a", .int 10)])),
+  (["copy_of_other", "signac_job_document.json"], .blob 2)]⟩
+
+/-- hypotheses of `valid_paths_roundtrip_partial` / `_multi` on a project that violates `NoNestedSp`:
+    they hold, and the nested copy is not imported as a job of its own -/
+private theorem ex_nested : WF h0 [j3, j2] ∧ ¬ NoNestedSp [j3, j2] ∧ NoEmptyDirs [j3, j2]
+    ∧ TopNamed [j3, j2] ∧ PrefixFree [["a", "1"], ["a", "10"]] := by
+  refine ⟨⟨by decide, ?_, ?_⟩, ?_, ?_, ?_, ex_good.2.2.1⟩
+  · intro j hj
+    simp only [List.mem_cons, List.not_mem_nil, or_false] at hj
+    rcases hj with rfl | rfl
+    · exact ⟨_, rfl, rfl⟩
+    · exact ⟨_, rfl, rfl⟩
+  · intro j hj fc hfc
+    simp only [List.mem_cons, List.not_mem_nil, or_false] at hj
+    rcases hj with rfl | rfl <;> simp only [j3, j2, List.mem_cons, List.not_mem_nil, or_false] at hfc
+    · rcases hfc with rfl | rfl | rfl <;> simp
+    · rcases hfc with rfl | rfl <;> simp
+  · intro h
+    have := h j3 List.mem_cons_self (["copy_of_other", fnSp], .sp (.obj [("a", .int 10)]))
+      (by simp [j3]) ["copy_of_other"] rfl
+    cases this
+  · intro j hj fc hfc
+    simp only [List.mem_cons, List.not_mem_nil, or_false] at hj
+    rcases hj with rfl | rfl <;> simp only [j3, j2, List.mem_cons, List.not_mem_nil, or_false] at hfc
+    · rcases hfc with rfl | rfl | rfl <;> rfl
+    · rcases hfc with rfl | rfl <;> rfl
+  · intro j hj fc hfc
+    simp only [List.mem_cons, List.not_mem_nil, or_false] at hj
+    rcases hj with rfl | rfl <;> simp only [j3, j2, List.mem_cons, List.not_mem_nil, or_false] at hfc
+    · rcases hfc with rfl | rfl | rfl <;> simp [fnSp, Extracted.FN_STATE_POINT]
+    · rcases hfc with rfl | rfl <;> simp [fnSp, Extracted.FN_STATE_POINT]
+
+example (t : Target) :
+    (importFrom t h0 .none [] [j3, j2] [["a", "1"], ["a", "10"]]
+        (walkOrder (exportMembers [j3, j2] [["a", "1"], ["a", "10"]]))).err = none
+    ∧ ProjEquiv (importFrom t h0 .none [] [j3, j2] [["a", "1"], ["a", "10"]]
+        (walkOrder (exportMembers [j3, j2] [["a", "1"], ["a", "10"]]))).proj [j3, j2] :=
+  valid_paths_roundtrip_multi h0 [j3, j2] [["a", "1"], ["a", "10"]] t rfl (by decide)
+    (fun _ => ex_nested.2.2.1) ex_nested.1 ex_nested.2.2.2.2
 
 /-- hypotheses of `export_checks_sound` / `export_accepts_sound` -/
 example : checkUnique ["a/1", "a/10", "b"] = true ∧ checkLeafNode ["a/1", "a/10", "b"] = true := by decide
